@@ -190,6 +190,47 @@ FnPlanar(g, asp, h, n, f) ==
                         <<Zero, Zero, RDiv(RAdd(RMul(RAdd(f, n), invf), Two), RSub(n, f)), RNeg(invf)>>,
                         <<Zero, Zero, RDiv(RAdd(RMul(RMul(RMul(Two, f), n), invf), RAdd(f, n)), RSub(n, f)), One>> >>)
 
+
+\* ------------------------------------------------------------ normalisation-based constructors (exact frames: every radicand a rational square)
+FnMagnitude(v) == RSqrt(Mag2(v))
+FnNormalizeV(v) == VScale(v, RDiv(One, FnMagnitude(v)))
+ExactNorm(v) == RIsSquare(Mag2(v)) /\ Mag2(v) # Zero
+\* Matrix3::look_to_lh: dir = dir.normalize(); side = up.cross(dir).normalize(); up = dir.cross(side).normalize(); from_cols(side, up, dir).transpose()
+FnLookToLh(dir, up) == LET d == FnNormalizeV(dir)  side == FnNormalizeV(Cross(up, d))  u2 == FnNormalizeV(Cross(d, side)) IN Transpose(<<side, u2, d>>)
+FnLookToRh(dir, up) == FnLookToLh(VNeg(dir), up)
+LookExact(dir, up) == ExactNorm(dir) /\ ExactNorm(Cross(up, FnNormalizeV(dir)))
+\* Matrix4::look_to_rh: f = dir.normalize(); s = f.cross(up).normalize(); u = s.cross(f)
+FnLookToRh4(eye, dir, up) ==
+  LET f == FnNormalizeV(dir)  s == FnNormalizeV(Cross(f, up))  u == Cross(s, f) IN
+  << <<s[1], u[1], RNeg(f[1]), Zero>>, <<s[2], u[2], RNeg(f[2]), Zero>>, <<s[3], u[3], RNeg(f[3]), Zero>>,
+     <<RNeg(Dot(eye, s)), RNeg(Dot(eye, u)), Dot(eye, f), One>> >>
+FnLookToLh4(eye, dir, up) == FnLookToRh4(eye, VNeg(dir), up)
+\* Matrix2::look_at: flip = up.x * dir.y >= up.y * dir.x; basis1 = dir.normalize(); basis2 = flip ? (b1.y, -b1.x) : (-b1.y, b1.x)
+FnLookAt2(dir, up) == LET b1 == FnNormalizeV(dir)  flip == RGe(RMul(up[1], dir[2]), RMul(up[2], dir[1])) IN
+                      <<b1, IF flip THEN <<b1[2], RNeg(b1[1])>> ELSE <<RNeg(b1[2]), b1[1]>> >>
+
+\* ------------------------------------------------------------ quaternion.rs: between_vectors (unit a, b), in square-root form
+\* Quaternion::from_sv(k + k_cos_theta, a.cross(b)).normalize(), k = sqrt(|a|^2 |b|^2) = 1
+SurdOf(x, n) == IF x = Zero THEN Zero ELSE <<RSgn(x), RDiv(RSq(x), n)[1], RDiv(RSq(x), n)[2]>>     \* x / sqrt(n)
+FnBetweenQuat(a, b) ==
+  LET c == Dot(a, b) IN
+  IF c = One THEN QOne
+  ELSE IF c = R(-1) THEN LET o1 == Cross(a, VUnit(3, 1))  o == IF Mag2(o1) = Zero THEN Cross(a, VUnit(3, 2)) ELSE o1 IN
+                         <<Zero>> \o [i \in 1..3 |-> SurdOf(o[i], Mag2(o))]
+  ELSE LET w == RAdd(One, c)  x == Cross(a, b)  n == RAdd(RSq(w), Mag2(x)) IN
+       <<SurdOf(w, n)>> \o [i \in 1..3 |-> SurdOf(x[i], n)]
+\* Basis2::between_vectors after the fix: from_angle(atan2(perp_dot(a, b), dot(a, b))); for unit a, b the rotation matrix is
+FnBetween2(a, b) == LET c == Dot(a, b)  s == PerpDot(a, b) IN << <<c, s>>, <<RNeg(s), c>> >>
+\* before the fix: from_angle(acos(a . b)) always turns counter-clockwise: sin = +sqrt(1 - c^2)
+FnBetween2Old(a, b) == LET c == Dot(a, b)  s == RSqrt(RSub(One, RSq(c))) IN << <<c, s>>, <<RNeg(s), c>> >>
+
+\* ------------------------------------------------------------ quaternion.rs: slerp away from the hand-over (table angles)
+FnSlerp(a, b, t, g) ==   \* g: the table angle acos(|a . b|); weights sin((1 - t) g), sin(t g); normalised (the norm is sin g)
+  LET b2 == IF RLt(Dot(a, b), Zero) THEN VNeg(b) ELSE b
+      s1 == Sin(AScale(g, RSub(One, t)))  s2 == Sin(AScale(g, t))
+      w == VAdd(VScale(a, s1), VScale(b2, s2)) IN
+  VScale(w, RDiv(One, RSqrt(Mag2(w))))
+
 \* ------------------------------------------------------------ structure.rs: Angle defaults (k-free angles, in quarter turns)
 FnNormalize(q) == LET rem == RRem(q, R(4)) IN IF RLt(rem, Zero) THEN RAdd(rem, R(4)) ELSE rem
 FnNormalizeSigned(q) == LET rem == FnNormalize(q) IN IF RLt(R(2), rem) THEN RSub(rem, R(4)) ELSE rem
